@@ -763,6 +763,9 @@ static int _fetch_and_process_packet(OggVorbis_File *vf,
               samples=(vorbis_synthesis_pcmout(&vf->vd,NULL)<<hs);
 
               granulepos-=samples;
+              if(granulepos<0)granulepos=0; /* likewise: a granule position
+                                               smaller than the audio
+                                               decoded for it */
               for(i=0;i<link;i++)
                 granulepos+=vf->pcmlengths[i*2+1];
               vf->pcm_offset=granulepos;
@@ -1913,6 +1916,9 @@ double ov_time_tell(OggVorbis_File *vf){
       time_total-=ov_time_total(vf,link);
       if(vf->pcm_offset>=pcm_total)break;
     }
+    /* a position before the first link (damaged stream) still has to be
+       expressed with some link's rate: the first one's */
+    if(link<0)link=0;
   }
 
   return((double)time_total+(double)(vf->pcm_offset-pcm_total)/vf->vi[link].rate);
